@@ -457,6 +457,13 @@ pub fn payload_size(p: &RefPayload, big: bool) -> usize {
 pub fn normalize(mut m: RefMsg) -> RefMsg {
     let n = payload_size(&m.payload, m.big);
     assert!(n <= 0xFFFF);
+    // the harness must only build well-formed messages: ids of at most 4 bytes without NUL, total
+    // length within the 16-bit length field (a violation here is a machinery failure, never a verdict)
+    for id in m.ecu.iter().chain(m.storage.iter().map(|s| &s.ecu)).chain(m.ext.iter().flat_map(|e| [&e.apid, &e.ctid])) {
+        assert!(id.len() <= 4 && !id.contains('\0'), "harness built an id that is not well-formed: {:?}", id);
+    }
+    let headers = 4 + if m.ecu.is_some() { 4 } else { 0 } + if m.session.is_some() { 4 } else { 0 } + if m.timestamp.is_some() { 4 } else { 0 } + if m.ext.is_some() { 10 } else { 0 };
+    assert!(headers + n <= 0xFFFF, "harness built a message of {} bytes (more than the 16-bit length field allows)", headers + n);
     m.payload_len = n as u16;
     if let Some(e) = &mut m.ext {
         match &m.payload {
